@@ -7,7 +7,7 @@ import copy
 from .. import templates as T
 from ..dsl import H, execute, jsonable
 from ..evidence import Acc
-from ..monitors import AFailing, ARec, Failing, Rec, canon_stream
+from ..monitors import AFailing, ARec, Failing, Rec, UFailing, canon_stream
 from . import c15
 
 PID = "C13"
@@ -98,7 +98,7 @@ def run_shard(shard):
             if _obs(xb) != base0:
                 acc.violation({"symptom": "healthy-processor-changes-run"}, {"program": prog, "inputs": jsonable(inputs), "extra": extra, "runner": runner, "eh": eh, "special": jsonable(special), "fault": None}, "attaching a healthy recorder changed the run")
             acc.counters[f"E[{name},{runner},{eh}]"] = E
-            kinds = [("sync", Failing)] + ([("async", AFailing)] if runner == "async" else [])
+            kinds = [("sync", Failing), ("sync-unhashable", UFailing)] + ([("async", AFailing)] if runner == "async" else [])
             points = [("k", k) for k in range(E)] + [("every", None), ("shutdown", None)]
             for kind_name, cls in kinds:
                 for pt in points:
@@ -109,7 +109,7 @@ def run_shard(shard):
                             f = cls(every=True)
                         else:
                             f = cls(at_shutdown=True)
-                        rec = Rec() if kind_name == "sync" or pos == "before" else ARec()
+                        rec = Rec() if kind_name.startswith("sync") or pos == "before" else ARec()
                         procs = [f, rec] if pos == "before" else [rec, f]
                         x = _run(prog, inputs, extra, runner, eh, special, procs)
                         acc.evaluations += 1
@@ -145,9 +145,9 @@ def replay(rep):
     if rep["fault"] is None:
         return ["healthy recorder changed the run"] if _obs(xb) != base0 else []
     kind_name, pt, pos = rep["fault"]
-    cls = Failing if kind_name == "sync" else AFailing
+    cls = {"sync": Failing, "sync-unhashable": UFailing}.get(kind_name, AFailing)
     f = cls(k=pt[1]) if pt[0] == "k" else (cls(every=True) if pt[0] == "every" else cls(at_shutdown=True))
-    rec = Rec() if kind_name == "sync" or pos == "before" else ARec()
+    rec = Rec() if kind_name.startswith("sync") or pos == "before" else ARec()
     x = _run(prog, inputs, extra, runner, eh, special, [f, rec] if pos == "before" else [rec, f])
     if _obs(x) != base0:
         msgs.append("run altered by failing processor")
